@@ -36,11 +36,14 @@ def run_one(mod, case, timeout):
     except CaseTimeout:
         res = {"status": "inconclusive", "reason": f"watchdog {timeout}s"}
     except Exception as e:  # harness-side failure: never a verdict
-        res = {
-            "status": "inconclusive",
-            "reason": f"harness exception {type(e).__name__}: {str(e)[:300]}",
-            "traceback": traceback.format_exc()[-3000:],
-        }
+        if type(e).__name__ == "MapperTimeout":
+            res = {"status": "inconclusive", "reason": "mapper watchdog"}
+        else:
+            res = {
+                "status": "inconclusive",
+                "reason": f"harness exception {type(e).__name__}: {str(e)[:300]}",
+                "traceback": traceback.format_exc()[-3000:],
+            }
     finally:
         signal.alarm(0)
     res.setdefault("status", "ok")
